@@ -91,8 +91,10 @@ Definition fill_text (v : yval) : res string :=
   | YOther => Err EUnmodelled
   end.
 
+(* the unit is free text: written as a quoted scalar like the other header strings (a unit such as '%', 'a: b', '[' is
+   not a plain YAML scalar) *)
 Definition unit_lines (unit : option string) : list string :=
-  match unit with Some u => ["      unit: " ++ u] | None => [] end.
+  match unit with Some u => ["      unit: " ++ yaml_quote u] | None => [] end.
 Definition comment_lines (comments : list string) : list string := map (fun c => "# " ++ c) comments.
 Definition head_lines (d m : string) : list string :=
   ["schema:"; "  delimiter: " ++ yaml_quote d; "  missing: " ++ yaml_quote m; "  fields:"].
